@@ -65,7 +65,7 @@ def Kind.isEnforce : Kind → Bool
 /-- an op line `pol <kind> a=.. r=.. rs=.. thr=.. w=.. sgn=.. wt=.. lim=.. per=.. ctx=.. sg=.. auth=..`
 with its fields parsed. The context word gives four fields: the word itself (`ctxS`, only compared),
 the context the model is given (`ctx`), and what the monitor reads off the word: does it announce
-a transfer (`isTransfer`: `t:` / `x:`) and of which amount (`amount`). -/
+a transfer (`isTransfer`: `t:` / `x:` / `s:`) and of which amount (`amount`). -/
 structure POp where
   kind : Kind
   a : Nat
